@@ -100,7 +100,16 @@ CHECKS = {
               "tolerated unknown events, both engines, are validated against the spec."),
         design_ref="DESIGN.md 5 C14",
         technique="TLA+ spec + TLC MC + TLC trace validation with identity-classified results",
-    ),    "C17": dict(
+    ),    "C16": dict(
+        category="model_checking",
+        text=("The spec's class table is immutable and each action changes one instance (PropIsolation); programs interleaving class statements "
+              "(independent classes, same class/method names with different async-ness, subclasses), instantiation and events on up to three "
+              "machines are executed and, after EVERY step, the projection of all instances and the structure of every class object defined "
+              "so far (states, events, per-state allowed events and targets) must equal the declared definitions."),
+        design_ref="DESIGN.md 5 C16",
+        technique="TLA+ spec (frame conditions, fixed class table) + TLC trace validation of multi-class programs with class probes",
+    ),
+    "C17": dict(
         category="model_checking",
         text=("Copy(i, j) in the spec makes the clone's machine record equal to the original's (options, provider set, model content, pending "
               "activation) and every later step changes one instance only; real histories with a deepcopy or pickle copy point (also before "
